@@ -3,6 +3,7 @@
    input : (op ...)   operations on a growing family of messages (member 0 exists at the start);
            op = (n0 n<t> n<isComment> (x<str> ...)) | (n1 n<t> x<id>) | (n2 n<t> x<type>) | (n3 n<t> z<retry ns>)
               | (n6 n<t> x<id>) | (n7 n<t> x<type>)  as n1/n2 through UnmarshalText from a buffer that is overwritten afterwards
+              | (n8 n<t> x<line>)  m_t.UnmarshalText("data: <line>\n\n") (line without CR/LF)
               | (n4 n<t>)  append m_t.Clone() to the family | (n5 n0)  append a new empty Message
    output: ((x<wire> ...) (event ...) err)  with the events and the final error reported by
            sse.Read over the concatenation; event = (x<id> x<type> x<data>) *)
@@ -23,6 +24,11 @@ Definition fam_step {A} (apply : A -> val -> A) (empty : A) (fam : list A) (op :
   match as_n (nth_val 0 op) with
   | 4 => fam ++ [nth t fam empty]
   | 5 => fam ++ [empty]
+  | 8 => (* UnmarshalText("data: <line>\n\n") into member t: everything it held is replaced by one data line *)
+         match nth_error fam t with
+         | Some _ => Queue.upd fam t (apply empty (VL [VN 0; VN (N.of_nat t); VN 0; VL [nth_val 2 op]]))
+         | None => fam
+         end
   | _ => match nth_error fam t with Some x => Queue.upd fam t (apply x op) | None => fam end
   end.
 Definition dec_msgs (i : val) : list msg :=
